@@ -255,10 +255,20 @@ def r15h(rep, prog):
             g = guards_formula(cfg, pu, atomize)
             opq = [a_ for a_ in ex.f_atoms(g) if isinstance(a_, tuple) and a_ and a_[0] == 'opaque' and lp.body is not None and lp.body.is_ancestor_of(fn.nodes[a_[1]])]
             bad = und = None
+            gparam = fn.param_ids[0]
             for a_ in opq:
                 cn = fn.nodes[a_[1]]
-                if ex.refs_var(cn, wv) and not ex.refs_var(cn, tparam):
+                # a *structural* test of the neighbour: a call that takes the graph and the neighbour (out_degree(w, g), edge(w, x, g), ...)
+                structural = any(x.k in ex.CALL_KINDS and x.callee and any(ex.var_of(y) == gparam for y in (x.args() if x.k != 'CXXOperatorCallExpr' else x.c[1:])) and
+                                 any(ex.refs_var(y, wv) for y in (x.args() if x.k != 'CXXOperatorCallExpr' else x.c[1:])) for x in [cn.strip_all()] + list(cn.walk()))
+                # search state of the neighbour: a per-vertex table / property map of this search read at w (distance sentinel, colour, visited flag)
+                state = any((x.k == 'CallExpr' and x.callee and x.callee['g'] == 'boost::get' and len(x.args()) == 2 and ex.var_of(x.args()[1]) == wv and ex.var_of(x.args()[0]) != gparam) or
+                            (x.k == 'CXXOperatorCallExpr' and x.op == '[]' and len(x.c) == 3 and ex.refs_var(x.c[2], wv) and ex.var_of(x.c[1]) != gparam)
+                            for x in [cn.strip_all()] + list(cn.walk()))
+                if structural and ex.refs_var(cn, wv) and not ex.refs_var(cn, tparam):
                     bad = cn
+                elif state and not structural:
+                    pass
                 else:
                     und = cn
             if bad is not None:
